@@ -31,7 +31,8 @@ def cases(tier, seed):
         yield dict(kind='stored', file=f)
     k = 0
     for b in c15.BASES:
-        for devs in [[]] + [[i] for i in range(len(c15.MENU))] + (list(map(list, itertools.combinations(range(len(c15.MENU)), 2))) if tier == 'thorough' else []):
+        names = [x[0] for x in c15.MENU]
+        for devs in [[]] + [[x] for x in names] + (list(map(list, itertools.combinations(names, 2))) if tier == 'thorough' else []):
             for vi, v in enumerate(VOLTS):
                 if devs and vi and len(devs) > 1:
                     continue
@@ -180,7 +181,7 @@ def evaluate(c):
     argv = list(c15.BASES[c['base']])
     names = []
     for i in c['devs']:
-        name, fn = c15.MENU[i]
+        name, fn = c15.entry(i)
         argv = fn(argv)
         names.append(name)
     if c['volt'] != '1' and not any(a.startswith('--excitation-voltage') for a in argv):
